@@ -35,7 +35,7 @@ use lightning_signer::util::status::Status;
 use lightning_signer::util::test_utils::FixedStartingTimeFactory;
 use serde::{Deserialize, Serialize};
 use std::panic::{catch_unwind, AssertUnwindSafe};
-use std::sync::Arc;
+use lightning_signer::prelude::Arc;
 use std::time::Duration;
 use vls_persist::kvv::memory::MemoryKVVStore;
 use vls_persist::kvv::{JsonFormat, KVVPersister, KVVStore, KVV};
